@@ -25,7 +25,10 @@ type c12Task struct {
 	// client does not wait for: they race the channel's Close (at most the queue size, or Close would meet the
 	// listed full-queue deadlock of C13).
 	Trailing int `json:"trailing,omitempty"`
-	// Long: many rounds on one channel so that its packet numbers wrap around.
+	// PostClose: after the peer has seen this channel's teardown (and simulated time has passed, so Close has
+	// returned) it sends one more packet for the channel: the channel no longer exists, so exactly one
+	// "invalid channel" connection error is due.
+	PostClose bool `json:"post_close,omitempty"`
 }
 
 type c12Plan struct {
@@ -77,6 +80,11 @@ func (c12) Gen(r *Rand, idx int, tier string) interface{} {
 			if p.Tasks[i].Trailing > p.QueueSize {
 				p.Tasks[i].Trailing = p.QueueSize
 			}
+		}
+	}
+	for i := range p.Tasks {
+		if !p.Tasks[i].NoClose && r.Pct(20) {
+			p.Tasks[i].PostClose = true
 		}
 	}
 	if r.Pct(4) {
@@ -220,6 +228,8 @@ func (c12) Run(plan interface{}, schedSeed uint64, replay []simrt.Choice, lenien
 			s.After(0, "pump", pump)
 		}
 	}
+	taskOfChan := map[uint16]int{}
+	postCloseSent := 0
 	nmsgs := 0
 	unknownSent := 0
 	trailingSent := 0
@@ -237,6 +247,13 @@ func (c12) Run(plan interface{}, schedSeed uint64, replay []simrt.Choice, lenien
 			if ci != nil {
 				ci.live = false
 				ci.closeSeq = simrt.Record("peer-close", "", "", int64(c))
+				if t := taskOfChan[c]; t >= 1 && t <= len(p.Tasks) && p.Tasks[t-1].PostClose {
+					postCloseSent++
+					s.Fault("packet-after-close")
+					s.After(time.Millisecond, "post-close packet", func() {
+						enqueue(c, peer.Packetise(peer.Done(0x10, 0, 515151), nil, peer.BufResponse, c, true))
+					})
+				}
 			}
 		}
 		if c != 0 {
@@ -282,6 +299,7 @@ func (c12) Run(plan interface{}, schedSeed uint64, replay []simrt.Choice, lenien
 		if i := strings.Index(txt, "t"); i >= 0 {
 			fmt.Sscanf(txt[i:], "t%dr%dn%d", &task, &round, &n)
 		}
+		taskOfChan[m.Channel] = task
 		var body []byte
 		for k := 0; k < n; k++ {
 			body = append(body, peer.Done(0x11, 0, c12Marker(task, round, k))...)
@@ -483,8 +501,9 @@ func (c12) Run(plan interface{}, schedSeed uint64, replay []simrt.Choice, lenien
 			trailingPackets++
 		}
 	}
-	if v.Class == "" && (totalInvalid < unknownSent || totalInvalid > unknownSent+trailingPackets) {
-		v.Violate("invalid-channel-report", "unknown-channel packets not reported exactly once", "%d packets for a non-existing channel were injected (plus %d late packets that may meet a closed channel), %d 'invalid channel' connection errors surfaced", unknownSent, trailingPackets, totalInvalid)
+	must := unknownSent + postCloseSent
+	if v.Class == "" && (totalInvalid < must || totalInvalid > must+trailingPackets) {
+		v.Violate("invalid-channel-report", "unknown-channel packets not reported exactly once", "%d packets for a channel that does not exist were injected (%d for a never existing id, %d after their channel's Close had returned; plus %d late packets that may or may not meet a closed channel), %d 'invalid channel' connection errors surfaced", must, unknownSent, postCloseSent, trailingPackets, totalInvalid)
 	}
 	_ = connCloseErr
 	_ = trailingSent
